@@ -159,3 +159,28 @@ Definition name_cache_ok (sz : N) (d : disk) (i : N) (ents : list (name * N * N)
   (length ents =? length want)%nat &&
   forallb (fun e => existsb (triple_eqb e) want) ents &&
   forallb (fun e => existsb (triple_eqb e) ents) want.
+
+(* names a complete enumeration of directory di must contain (C13) *)
+Definition enum_names (s : afs) (di : inum) : list name :=
+  match objs s !! di with
+  | Some d => dot :: dotdot :: map fst (map_to_list (o_ents d))
+  | None => [] end.
+
+(* ---------- READDIR page = the slot-model page of Proofs/Paging.v (tie of that model to the code) ---------- *)
+From V Require Proofs.Paging.
+Definition dir_slots_of (sz : N) (d : disk) (i : N) : list (option (name * N)) :=
+  let l := mk_layout sz in
+  let ip := read_inode l d i in
+  let '(leaves, _) := inode_blocks d ip in
+  dir_slots d (leaf_map leaves) (i_size ip).
+(* reply bytes ApplyEnts charges for an entry: 16 + len(name) + 8 + 8 *)
+Definition readdir_cost (e : name * N) : N := lenN (fst e) + 32.
+Definition model_page (slots : list (option (name * N))) (cookie count : N) :=
+  Paging.page (name * N) readdir_cost slots (N.to_nat (cookie / DIRENTSZ)) count.
+Definition readdir_matches_model (sz : N) (d : disk) (i cookie count : N) (ents : list odirent) (eof : bool) : bool :=
+  let '(es, meof, _) := model_page (dir_slots_of sz d i) cookie count in
+  Bool.eqb eof meof &&
+  (length ents =? length es)%nat &&
+  forallb (fun p => let '(e, (idx, (nm, inum))) := p in
+                    bytes_eqb (de_name e) nm && (de_fileid e =? inum) && (de_cookie e =? (N.of_nat idx + 1) * DIRENTSZ))
+          (combine ents es).
